@@ -84,6 +84,8 @@ def classify(diff):
 
 
 def evaluate(case):
+    if "generations" in case:
+        return [failure(sig, case, d) for sig, d in module_generations(case)]
     ast = case["schema"]
     try:
         sm = refload.compile_schema(ast)
@@ -96,12 +98,98 @@ def evaluate(case):
 
 def shards(tier, seed):
     n = 12000 if tier == "thorough" else 1300
-    return [{"seed": seed, "lo": i * n, "hi": (i + 1) * n} for i in range(16)]
+    specs = [{"seed": seed, "lo": i * n, "hi": (i + 1) * n} for i in range(16)]
+    specs.append({"seed": seed, "generations": 40 if tier == "thorough" else 8})
+    return specs
+
+
+MODULE_SRC = """
+class W:
+    def __init__(self, v, g):
+        self.v, self.g = v, g
+
+
+def scale(value):
+    return int(value) * %(factor)d
+
+
+def wrap(section):
+    return W(section, %(gen)d)
+"""
+
+GEN_SCHEMA = """<schema>
+  <sectiontype name="part" datatype="%(mod)s.wrap">
+    <key name="width" datatype="%(mod)s.scale" default="2"/>
+    <key name="depth" datatype="%(mod)s.scale"/>
+  </sectiontype>
+  <multisection name="*" type="part" attribute="parts"/>
+  <key name="top" datatype="%(mod)s.scale" default="5"/>
+</schema>"""
+
+
+def module_generations(case):
+    """A datatype named by dotted Python name is the callable the name denotes when the schema
+    is loaded: the same name, in one interpreter, over several generations of the module behind
+    it (another sys.path entry provides it; the sys.modules entry replaced).  -> [(sig, detail)]"""
+    import importlib
+    import io
+    import os
+    import shutil
+    import sys
+    import tempfile
+    ZConfig = loadcheck.zc()
+    out = []
+    mod = case["module"]
+    base = tempfile.mkdtemp(prefix="zcv-c02-")
+    try:
+        for g, (factor, how) in enumerate(case["generations"]):
+            d = os.path.join(base, "g%d" % g)
+            os.mkdir(d)
+            with open(os.path.join(d, mod + ".py"), "w") as f:
+                f.write(MODULE_SRC % {"factor": factor, "gen": g})
+            sys.path.insert(0, d)
+            importlib.invalidate_caches()
+            if how == "reload" and mod in sys.modules:
+                importlib.reload(sys.modules[mod])
+            else:
+                sys.modules.pop(mod, None)
+            try:
+                schema = ZConfig.loadSchemaFile(io.StringIO(GEN_SCHEMA % {"mod": mod}))
+                cfg, _ = ZConfig.loadConfigFile(schema, io.StringIO("<part a>\n depth 3\n</part>\n<part b>\n width 4\n depth 1\n</part>\ntop 7\n"))
+                got = (cfg.top, [(type(p).__name__, getattr(p, "g", None), p.v.width, p.v.depth) for p in cfg.parts])
+                want = (7 * factor, [("W", g, 2 * factor, 3 * factor), ("W", g, 4 * factor, 1 * factor)])
+                if got != want:
+                    out.append(("datatype-name-resolved-to-an-earlier-generation-of-its-module",
+                                "generation %d (%s): %r expected %r" % (g, how, got, want)))
+                    break
+            except Exception as e:  # noqa
+                out.append(("datatype-module-generation:raises:%s" % type(e).__name__, "generation %d: %s" % (g, e)))
+                break
+            finally:
+                sys.path.remove(d)
+    finally:
+        sys.modules.pop(mod, None)
+        importlib.invalidate_caches()
+        shutil.rmtree(base, ignore_errors=True)
+    return out
 
 
 def run_shard(spec):
     res = Result()
     counters = collections.Counter()
+    if "generations" in spec:
+        for k in range(spec["generations"]):
+            rng = loadcheck.case_rng(spec["seed"] + 202, k)
+            case = {"module": "zcvgen%d" % (k % 2), "generations": [(rng.choice([1, 2, 3, 10, 100]), rng.choice(["replace", "replace", "reload"]))
+                                                                   for _ in range(rng.randint(2, 4))]}
+            res.evaluations += 1
+            if len(set(f for f, _ in case["generations"])) > 1:
+                res.nontrivial(key=case)
+            counters["module-generation-histories"] += 1
+            for sig, d in module_generations(case):
+                res.fail(sig, case, d)
+        res.counters.update(counters)
+        return res
     for i in range(spec["lo"], spec["hi"]):
         ast, sm, texts = loadcheck.gen_case(spec["seed"], i)
         try:
